@@ -2,7 +2,7 @@
 
 All five quantify over the generated valid class (Grammar.tla) and are decided by the laws of
 Session.tla on recorded sessions of the real library (DESIGN.md 6)."""
-import json
+import json, os
 from .. import common, programs, session, obs, render, lexer
 from ..framework import Check, pmap, MachineryError
 
@@ -66,7 +66,8 @@ def stressed_variants(p, limit):
                 depth += 1
             elif t in ")]":
                 depth -= 1
-            elif t.isdigit() and j > 0 and toks[j - 1][0] not in ("*", "=>") and not (j == 1 and toks[0][0].lower() in ("goto", "go")):
+            elif t.isdigit() and j > 0 and toks[j - 1][0] not in ("*", "=>") and not (j == 1 and toks[0][0].lower() in ("goto", "go")) \
+                    and not (j + 1 < len(toks) and toks[j + 1][0] == "_"):      # not the kind prefix of a character literal
                 slots.append(j)
             elif depth > 0 and t.isidentifier() and t.lower() not in ("kind", "len", "unit", "fmt", "file", "stat", "iostat", "err", "end", "status") \
                     and (j + 1 >= len(toks) or toks[j + 1][0] not in ("(", "=", "%")) and toks[j - 1][0] in ("(", ",", "=", ":"):
@@ -158,6 +159,7 @@ def events_for(prop, case, r, D, tree_ctr):
         elif prop == "C18":
             ev.append({"e": "claim", "law": "copy", "src": s0, "cfg": _cfgid(cfg), "how": "deepcopy"})
             ev.append({"e": "claim", "law": "copy", "src": s0, "cfg": _cfgid(cfg), "how": "pickle"})
+            ev.append({"e": "claim", "law": "copy", "src": s0, "cfg": _cfgid(cfg), "how": "pickle-fresh"})
     if prop == "C17":
         c3, c8 = _cfgid(("f2003", True, False)), _cfgid(("f2008", True, False))
         if case["needs08"]:
@@ -195,11 +197,60 @@ def f2008_only_intrinsic_names():
 
 def signature(prop, case, r, clause):
     """Input-shape part of a violation signature (what known_findings.json entries match on)."""
-    return {}
+    import re
+    sig = {}
+    if prop == "C01":
+        # a FORMAT item list that leaves out the optional comma after a kP edit descriptor (constraint C1002)
+        for st in lexer.split_statements(case["src"]):
+            tk = lexer.toks(st)
+            if lexer.is_format(tk) and re.search(r"\d\s*p\s*\d*\s*(f|e|en|es|d|g)\s*\d", st, re.I):
+                sig["kp_without_comma"] = True
+    return sig
 
 
 def explain(prop, case, r, clause):
     return "%s: %s on program %d (%s, %s):\n%s" % (prop, clause, case["id"], case["fam"], case["variant"], case["src"][:600])
+
+
+def _xload(paths):
+    import subprocess, sys
+    lst = paths[0] + ".list"
+    with open(lst, "w") as f:
+        f.write("\n".join(paths) + "\n")
+    try:
+        p = subprocess.run([sys.executable, "-m", "mbt.xload", lst], cwd=common.VERIF, capture_output=True, text=True, timeout=1800)
+        out = [json.loads(l) for l in p.stdout.splitlines() if l.startswith("{")]
+        return {"rc": p.returncode, "out": out, "err": p.stderr[-400:]}
+    finally:
+        for x in paths + [lst]:
+            try:
+                os.remove(x)
+            except OSError:
+                pass
+
+
+def resolve_fresh_loads(chk, results):
+    """Load the pickles written by the observers in processes that never created a parser."""
+    pend = [c for r in results for run_ in r["runs"] for c in run_.get("copies", ()) if c.get("pending")]
+    if not pend:
+        return
+    paths = [c["pending"] for c in pend]
+    n = max(1, min(common.NCPU, len(paths) // 20 + 1))
+    batches = [paths[i::n] for i in range(n)]
+    got = {}
+    for b, res in zip(batches, pmap(_xload, batches, chunksize=1, procs=n)):
+        for o in res["out"]:
+            got[o["path"]] = o
+        if len(res["out"]) != len(b):
+            raise MachineryError("the loader process answered for %d of %d pickles: rc=%s %s" % (len(res["out"]), len(b), res["rc"], res["err"]))
+    fresh = 0
+    for c in pend:
+        o = got[c.pop("pending")]
+        if o["parser_created"]:
+            raise MachineryError("the loader process had created a parser")
+        c.update(ok=o["ok"], st=o["st"], text=o["text"], wf=o["wf"], err=o["err"], wf_problems=o.get("wf_problems"))
+        fresh += 1
+    chk.cov["pickles_loaded_in_fresh_process"] = fresh
 
 
 def run(prop, tier=None, replay=None):
@@ -227,6 +278,8 @@ def run(prop, tier=None, replay=None):
             c["exact"] = not (idents & names8)
     chk.phase("generate")
     results = pmap(obs.observe, cases)
+    if prop == "C18":
+        resolve_fresh_loads(chk, results)
     chk.phase("observe")
     D = session.Digests()
     tree_ctr = [0]
